@@ -156,4 +156,25 @@ theorem encode_roundtrip (timeout tEnd : Nat) (c0 : PChan) (hto : c0.timeout = t
         (by simp [lastTime]; omega)
       simpa [schedEvents, Timed.events, intended, Block.intended, intendedUnits, hval] using this
 
+/-! ### the whole 16-channel scanner -/
+
+/-- C12 for the WHOLE scanner: take ANY interleaved history of valid feeds on all 16 channels, polls, resets and time
+    steps on a scanner created with `new(timeout)`, in which channel `c` sees exactly a good schedule of a non-empty
+    sentence of the documented grammar followed by one poll after the timeout (what the other 15 channels see is
+    arbitrary).  Then the scanner never panics and the messages `feed` and `poll` report for channel `c` are exactly
+    the intended ones, each once and in order. -/
+theorem sentences_scanner (c : Nat) (hc : c < 16) (now timeout t tEnd : Nat) (ops : List TOp) (hv : ∀ op ∈ ops, op.Valid)
+    (bs : List Block) (hne : bs ≠ []) (hb : ∀ b ∈ bs, b.Valid) (sched : List Timed) (hg : Good timeout t bs sched)
+    (hend : lastTime sched + timeout ≤ tEnd)
+    (hview : project c now ops = schedEvents sched ++ [.poll tEnd]) :
+    ∃ n s outs, pRun now (PScanner.new timeout) ops = .ok ((n, s), outs) ∧
+      reports (outputsOn c now ops outs) = intended c bs := by
+  obtain ⟨n, s, outs, h, _, _, ho⟩ := p_run_channel c hc now (PScanner.new timeout) ops hv
+  refine ⟨n, s, outs, h, ?_⟩
+  have hnew : (PScanner.new timeout)[c] = ({ timeout := timeout } : PChan) := by simp [PScanner.new]
+  rw [ho, hnew, hview]
+  have := sentences c timeout t tEnd { timeout := timeout } rfl (by simp [ChanWF, PState.default]) bs hne hb sched hg hend
+  rw [this]
+  simp [flush, PState.default]
+
 end Midi.Props.C12
